@@ -1036,6 +1036,8 @@ class MayRaise:
                     lo, hi = max(lo, f[2]), min(hi, f[3])
             if ("GE0", e.id) in facts:
                 lo = max(lo, 0)
+            if any(f[0] == "ISLEN" and f[1] == e.id for f in facts):
+                lo, hi = max(lo, 0), min(hi, MAXSIZE)          # the name holds a len(): a Py_ssize_t
         if is_byte:
             lo, hi = max(lo, 0), min(hi, 255)
         if isinstance(e, ast.Subscript) and not isinstance(e.slice, ast.Slice):
